@@ -15,6 +15,14 @@
 #[path = "gen/lr_t_parser.rs"] mod lr_t_parser;
 #[path = "gen/ll_n_grammar_trait.rs"] mod ll_n_grammar_trait;
 #[path = "gen/ll_n_parser.rs"] mod ll_n_parser;
+#[path = "gen/e_ll_grammar_trait.rs"] mod e_ll_grammar_trait;
+#[path = "gen/e_ll_parser.rs"] mod e_ll_parser;
+#[path = "gen/e_lr_grammar_trait.rs"] mod e_lr_grammar_trait;
+#[path = "gen/e_lr_parser.rs"] mod e_lr_parser;
+#[path = "gen/e_ll_t_grammar_trait.rs"] mod e_ll_t_grammar_trait;
+#[path = "gen/e_ll_t_parser.rs"] mod e_ll_t_parser;
+#[path = "gen/e_lr_t_grammar_trait.rs"] mod e_lr_t_grammar_trait;
+#[path = "gen/e_lr_t_parser.rs"] mod e_lr_t_parser;
 
 use parol_runtime::{ParolError, Token, parser::parse_tree_type::TreeConstruct};
 
@@ -44,6 +52,30 @@ user_grammar!(lr_grammar, LrGrammar, LrGrammarTrait, lr_grammar_trait);
 user_grammar!(ll_t_grammar, LlTGrammar, LlTGrammarTrait, ll_t_grammar_trait);
 user_grammar!(lr_t_grammar, LrTGrammar, LrTGrammarTrait, lr_t_grammar_trait);
 user_grammar!(ll_n_grammar, LlNGrammar, LlNGrammarTrait, ll_n_grammar_trait);
+
+// second toy grammar (nested expressions): E: T { Plus T }; T: Num | Open E Close;
+macro_rules! user_grammar2 {
+    ($m:ident, $ty:ident, $tr:ident, $trm:ident) => {
+        mod $m {
+            use super::Ev;
+            use crate::$trm::{Num, Plus, Open, Close, $tr};
+            use parol_runtime::{Result, Token};
+            #[derive(Default)]
+            pub struct $ty<'t> { pub events: Vec<Ev>, _p: std::marker::PhantomData<&'t ()> }
+            impl<'t> $tr<'t> for $ty<'t> {
+                fn num(&mut self, x: &Num<'t>) -> Result<()> { self.events.push(Ev { kind: 'n', start: x.num.location.start as usize, end: x.num.location.end as usize }); Ok(()) }
+                fn plus(&mut self, x: &Plus<'t>) -> Result<()> { self.events.push(Ev { kind: '+', start: x.plus.location.start as usize, end: x.plus.location.end as usize }); Ok(()) }
+                fn open(&mut self, x: &Open<'t>) -> Result<()> { self.events.push(Ev { kind: '(', start: x.open.location.start as usize, end: x.open.location.end as usize }); Ok(()) }
+                fn close(&mut self, x: &Close<'t>) -> Result<()> { self.events.push(Ev { kind: ')', start: x.close.location.start as usize, end: x.close.location.end as usize }); Ok(()) }
+                fn on_comment(&mut self, t: Token<'t>) { self.events.push(Ev { kind: 'c', start: t.location.start as usize, end: t.location.end as usize }); }
+            }
+        }
+    };
+}
+user_grammar2!(e_ll_grammar, ELlGrammar, ELlGrammarTrait, e_ll_grammar_trait);
+user_grammar2!(e_lr_grammar, ELrGrammar, ELrGrammarTrait, e_lr_grammar_trait);
+user_grammar2!(e_ll_t_grammar, ELlTGrammar, ELlTGrammarTrait, e_ll_t_grammar_trait);
+user_grammar2!(e_lr_t_grammar, ELrTGrammar, ELrTGrammarTrait, e_lr_t_grammar_trait);
 
 #[derive(Debug, Clone, PartialEq)]
 struct Leaf { ty: u16, start: usize, end: usize, text: String, line: u32, col: u32 }
@@ -184,6 +216,85 @@ fn check_events(r: &Run, want: &[RTok]) -> Option<usize> {
     if cms != want_cms { return Some(8); }
     None
 }
+
+// ================= second toy grammar: nested expressions (LL(1) / LALR(1), full tree and trimmed) =================
+const G2_VARIANTS: [&str; 4] = ["expr LL(k)", "expr LALR(1)", "expr LL(k) trimmed", "expr LALR(1) trimmed"];
+const NUM: u16 = 5; const PLUS: u16 = 6; const OPEN: u16 = 7; const CLOSE: u16 = 8; const ERR2: u16 = 9;
+fn reference_tokens2(s: &str) -> Vec<RTok> {
+    let b = s.as_bytes();
+    let mut out: Vec<RTok> = vec![];
+    let mut i = 0;
+    while i < b.len() {
+        let c = b[i];
+        let rest = &s[i..];
+        if c == b'\n' { out.push(RTok { ty: NL, start: i, end: i + 1, skip: true }); i += 1; continue; }
+        if c == b' ' || c == b'\t' { let mut j = i; while j < b.len() && (b[j] == b' ' || b[j] == b'\t') { j += 1; } out.push(RTok { ty: WS, start: i, end: j, skip: true }); i = j; continue; }
+        let one = |ty: u16| RTok { ty, start: i, end: i + 1, skip: false };
+        if c == b'n' { out.push(one(NUM)); i += 1; continue; }
+        if c == b'+' { out.push(one(PLUS)); i += 1; continue; }
+        if c == b'(' { out.push(one(OPEN)); i += 1; continue; }
+        if c == b')' { out.push(one(CLOSE)); i += 1; continue; }
+        if rest.starts_with("//") { let mut j = i; while j < b.len() && b[j] != b'\n' { j += 1; } if j < b.len() { j += 1; } out.push(RTok { ty: LC, start: i, end: j, skip: true }); i = j; continue; }
+        if rest.starts_with("/*") { if let Some(p) = rest[2..].find("*/") { let j = i + 2 + p + 2; out.push(RTok { ty: BC, start: i, end: j, skip: true }); i = j; continue; } }
+        let n = rest.chars().next().unwrap().len_utf8();
+        out.push(RTok { ty: ERR2, start: i, end: i + n, skip: false }); i += n;
+    }
+    out
+}
+/// independent recognizer of E: T { '+' T }; T: 'n' | '(' E ')'
+fn is_expr(t: &[u16]) -> bool {
+    fn e(t: &[u16], mut p: usize) -> Option<usize> { p = tt(t, p)?; while p < t.len() && t[p] == PLUS { p = tt(t, p + 1)?; } Some(p) }
+    fn tt(t: &[u16], p: usize) -> Option<usize> {
+        if p >= t.len() { return None; }
+        if t[p] == NUM { return Some(p + 1); }
+        if t[p] == OPEN { let q = e(t, p + 1)?; if q < t.len() && t[q] == CLOSE { return Some(q + 1); } }
+        None
+    }
+    e(t, 0) == Some(t.len())
+}
+fn run2(v: usize, input: &str) -> Run {
+    let inp = input.to_string();
+    let r = std::panic::catch_unwind(move || {
+        let mut col = Collector::default();
+        match v {
+            1 => { let mut g = e_lr_grammar::ELrGrammar::default(); let r = e_lr_parser::parse_into(&inp, &mut col, "x", &mut g); (r.is_ok(), col.leaves, g.events) }
+            2 => { let mut g = e_ll_t_grammar::ELlTGrammar::default(); let r = e_ll_t_parser::parse_into(&inp, &mut col, "x", &mut g); (r.is_ok(), col.leaves, g.events) }
+            3 => { let mut g = e_lr_t_grammar::ELrTGrammar::default(); let r = e_lr_t_parser::parse_into(&inp, &mut col, "x", &mut g); (r.is_ok(), col.leaves, g.events) }
+            _ => { let mut g = e_ll_grammar::ELlGrammar::default(); let r = e_ll_parser::parse_into(&inp, &mut col, "x", &mut g); (r.is_ok(), col.leaves, g.events) }
+        }
+    });
+    match r { Ok((ok, leaves, events)) => Run { ok, leaves, events, panicked: false }, Err(_) => Run { ok: false, leaves: vec![], events: vec![], panicked: true } }
+}
+/// same clause indices as check()
+fn check2(v: usize, input: &str) -> Option<usize> {
+    let want = reference_tokens2(input);
+    let r = run2(v, input);
+    if r.panicked { return Some(0); }
+    let sigs: Vec<u16> = want.iter().filter(|t| !t.skip).map(|t| t.ty).collect();
+    let expect_ok = !want.iter().any(|t| t.ty == ERR2) && is_expr(&sigs);
+    if r.ok != expect_ok { return Some(1); }
+    if !r.ok { return None; }
+    let kind_of = |ty: u16| match ty { NUM => 'n', PLUS => '+', OPEN => '(', _ => ')' };
+    let acts: Vec<(char, usize)> = r.events.iter().filter(|e| e.kind != 'c').map(|e| (e.kind, e.start)).collect();
+    let want_acts: Vec<(char, usize)> = want.iter().filter(|t| !t.skip).map(|t| (kind_of(t.ty), t.start)).collect();
+    let cms: Vec<(usize, usize)> = r.events.iter().filter(|e| e.kind == 'c').map(|e| (e.start, e.end)).collect();
+    let want_cms: Vec<(usize, usize)> = want.iter().filter(|t| t.ty == LC || t.ty == BC).map(|t| (t.start, t.end)).collect();
+    if v >= 2 {
+        if !r.leaves.is_empty() { return Some(4); }
+    } else {
+        let mut pos = 0;
+        for l in &r.leaves { if l.start != pos || l.end < l.start { return Some(2); } pos = l.end; }
+        if pos != input.len() { return Some(2); }
+        for l in &r.leaves { if input.get(l.start..l.end) != Some(l.text.as_str()) { return Some(3); } }
+        if r.leaves.len() != want.len() { return Some(4); }
+        for (l, w) in r.leaves.iter().zip(&want) { if l.ty != w.ty || l.start != w.start || l.end != w.end { return Some(4); } }
+        for l in &r.leaves { if (l.line, l.col) != line_col(input, l.start) { return Some(5); } }
+    }
+    if acts != want_acts { return Some(7); }
+    if cms != want_cms { return Some(8); }
+    None
+}
+const PIECES2: [&str; 9] = ["n", "+", "(", ")", " ", "\n", "//c\n", "/*c*/", "?"];
 const PIECES: [&str; 12] = ["a", "b", "#", " ", "\n", "//c\n", "/*c*/", "?", "ä", "//", "\t", ";"];
 fn esc(s: &str) -> String { s.chars().map(|c| format!("{}", c as u32)).collect::<Vec<_>>().join(",") }
 static PROGRESS: std::sync::atomic::AtomicU64 = std::sync::atomic::AtomicU64::new(0);
@@ -233,6 +344,22 @@ fn main() {
             }
             if p.len() < maxlen { for i in 0..PIECES.len() { let mut q = p.clone(); q.push(i); stack.push(q); } }
         }
+        // second grammar (nested expressions): inputs of up to maxlen + 1 pieces
+        let mut stack: Vec<Vec<usize>> = vec![vec![]];
+        while let Some(p) = stack.pop() {
+            let input: String = p.iter().map(|i| PIECES2[*i]).collect();
+            if !input.contains("*//") {
+                for v in 0..G2_VARIANTS.len() {
+                    cases += 1;
+                    PROGRESS.fetch_add(1, std::sync::atomic::Ordering::Relaxed);
+                    if let Ok(mut c) = CURRENT.lock() { *c = format!("{{\"g\":2,\"v\":{},\"chars\":[{}]}}", v, esc(&input)); }
+                    if let Some(ci) = check2(v, &input) {
+                        if first[ci].is_none() { first[ci] = Some(format!("{{\"g\":2,\"v\":{},\"chars\":[{}]}}", v, esc(&input))); }
+                    }
+                }
+            }
+            if p.len() < maxlen + 1 { for i in 0..PIECES2.len() { let mut q = p.clone(); q.push(i); stack.push(q); } }
+        }
         let mut bad = false;
         for (ci, (p, c)) in CLAUSES.iter().enumerate() {
             if !(prop == "all" || p.split(' ').any(|x| x == prop)) { continue; }
@@ -242,6 +369,9 @@ fn main() {
             }
         }
         if bad { std::process::exit(1); }
+    } else if a[1] == "show2" {
+        let input = a[2].replace("\\n", "\n");
+        for v in 0..G2_VARIANTS.len() { let r = run2(v, &input); println!("{} ok={} panicked={}\n leaves={:?}\n events={:?}\n want={:?}\n violated={:?}", G2_VARIANTS[v], r.ok, r.panicked, r.leaves, r.events, reference_tokens2(&input), check2(v, &input).map(|i| CLAUSES[i].1)); }
     } else if a[1] == "show" {
         let input = a[2].replace("\\n", "\n");
         for v in 0..VARIANTS.len() { let r = run(v, &input); println!("{} ok={} panicked={}\n leaves={:?}\n events={:?}\n want={:?}\n violated={:?}", VARIANTS[v], r.ok, r.panicked, r.leaves, r.events, reference_tokens(&input), check(v, &input).map(|i| CLAUSES[i].1)); }
@@ -251,8 +381,9 @@ fn main() {
         let v: usize = if let Some(p) = s.find("\"v\":") { s[p + 4..].chars().take_while(|c| c.is_ascii_digit()).collect::<String>().parse().unwrap() } else if s.contains("\"lr\":true") { 1 } else { 0 };
         let cs = &s[s.find("\"chars\"").unwrap()..];
         let input: String = cs.split(|c: char| !c.is_ascii_digit()).filter(|x| !x.is_empty()).map(|x| char::from_u32(x.parse().unwrap()).unwrap()).collect();
-        println!("input {:?} with the {} parser", input, VARIANTS[v]);
-        match check(v, &input) {
+        let g2 = s.contains("\"g\":2");
+        println!("input {:?} with the {} parser", input, if g2 { G2_VARIANTS[v] } else { VARIANTS[v] });
+        match if g2 { check2(v, &input) } else { check(v, &input) } {
             Some(ci) => { println!("REPRODUCED on the real crates: violated `{}`", CLAUSES[ci].1); std::process::exit(1) }
             None => println!("the recorded input satisfies all clauses on the current tree"),
         }
